@@ -464,8 +464,17 @@ class Interp:
             for t in s.targets:
                 if isinstance(t, ast.Name):
                     st.env.pop(t.id, None)
+                elif isinstance(t, ast.Subscript):
+                    base = self.eval(t.value, st)
+                    if not isinstance(base, VDict):
+                        raise EngineError('del x[k] on a non-dict')
+                    kt = to_term(self.eval(t.slice, st), base.kk)
+                    self.oblige(st, f'key[del {self.src(t)}]', base.dom[kt], text=self.src(t))
+                    if base.size is not None:
+                        base.size = base.size - 1
+                    base.dom = z3.Store(base.dom, kt, z3.BoolVal(False))
                 else:
-                    raise EngineError('del of non-name')
+                    raise EngineError('del of this target')
             return [(st, None)]
         if isinstance(s, ast.Global):
             return [(st, None)]
@@ -574,6 +583,10 @@ class Interp:
                     target(n.target)
                 elif isinstance(n, ast.For):
                     target(n.target)
+                elif isinstance(n, ast.Delete):
+                    for t in n.targets:
+                        if isinstance(t, ast.Subscript):
+                            conts.append(t.value)
                 elif isinstance(n, ast.Call) and isinstance(n.func, ast.Attribute) and n.func.attr in MUTATORS:
                     if not self.is_inert_call(n):
                         conts.append(n.func.value)
@@ -713,6 +726,11 @@ class Interp:
                                       patterns=pats))
             ek = it.ek
             return n, (lambda k: from_term(enum[k], ek))
+        if isinstance(it, VObj) and it.cls == 'DictItems':
+            d = it.fields['dict']
+            n, kelem = self.iter_of_value(VSet(d.kk, d.dom, d.size), st)
+            val0, vk, kk = d.val, d.vk, d.kk
+            return n, (lambda k: VTuple([kelem(k), from_term(val0[to_term(kelem(k), kk)], vk)]))
         if isinstance(it, VDict):
             raise EngineError('iterate dict: use .items()/.keys() stubs')
         raise EngineError(f'cannot iterate {it!r}')
@@ -1595,6 +1613,10 @@ class Interp:
 
     def contains(self, cont, x, st, txt=''):
         if isinstance(cont, VSet):
+            if cont.ek == 'unknown':
+                return z3.BoolVal(False)
+            if isinstance(cont.ek, tuple) and cont.ek[0] == 'tuple' and isinstance(x, (VStr, VInt, VReal, VBool)):
+                return z3.BoolVal(False)      # a scalar is never equal to a tuple
             return cont.mem[to_term(x, cont.ek)]
         if isinstance(cont, VDict):
             if cont.kk == 'unknown':
